@@ -51,7 +51,7 @@ FINDING_POSITIONAL = "C14-store-call-sites-positional-version"
 FINDING_EMPTY_BUNDLE = "C14-empty-21-bundle-not-detected"
 FINDING_TAXII_ALL_VERSIONS = "C14-taxii-all-versions-first-parse-unversioned"
 FINDING_TAXII_SINK_DICT = "C14-taxii-sink-add-dict-ignores-version"
-FINDING_TAXII_SINK_ASIS = "C14-taxii-sink-as-is-content-redetected"
+FINDING_TAXII_SINK_WRAP = "C14-taxii-sink-bundle-wrap-reinterprets"
 
 ZERO = "00000000-0000-0000-0000-000000000000"
 V1 = "c9bd2a4e-2b1c-1d3e-8f00-0123456789ab"
@@ -700,10 +700,11 @@ def check(run):
                     known_cls = FINDING_TAXII_ALL_VERSIONS
             if e in TAXII_SINK_ENTRIES and v is not None:
                 w0 = direct.get((fn_own, ac_own, io_own, v))
-                if w0 is not None and w0[0] == "ok" and w0[1] == "dict":
-                    # the parser hands content of a type unregistered in the named version back as is; the sink then wraps it in
-                    # a v2x.Bundle chosen by 'spec_version', which detects and validates it again
-                    known_cls = FINDING_TAXII_SINK_ASIS
+                if w0 is not None and w0[0] == "ok" and (md["taxii_sink_dict_parses"] or cfg.get("wrap") not in (None, "list")):
+                    # the parse with the named version ACCEPTS the content (as an object of that version, or as is when the type
+                    # is not registered for it); the sink then wraps the result in v21.Bundle / v20.Bundle chosen by the presence
+                    # of 'spec_version' -- not by the named version -- and the Bundle interprets and validates it again
+                    known_cls = FINDING_TAXII_SINK_WRAP
                 elif not md["taxii_sink_dict_parses"] and cfg.get("wrap") in (None, "list"):
                     known_cls = FINDING_TAXII_SINK_DICT       # a plain dict goes into v2x.Bundle(..) and never meets parse(.., version)
             # oracle: the property itself (a version is named)
@@ -727,9 +728,11 @@ def check(run):
                         {"kind": "entry", "entry": e, "cfg": cfg, "data": p["data"]}, finding=cls))
             # correspondence: the triple the generated table predicts (the dict / list-of-dict branch of
             # TAXIICollectionSink.add builds v2x.Bundle(stix_data) and reaches no parser call site: not in the table)
+            # ... and what the Bundle wrapping does to content the parser accepted is outside the table too: for the TAXII sink
+            # only refusals by the parser are compared)
             if model_ok and not (e in TAXII_SINK_ENTRIES and (
-                    (cfg.get("wrap") in (None, "list") and not md["taxii_sink_dict_parses"]) or known_cls == FINDING_TAXII_SINK_ASIS
-                    or (v is None and (direct.get((fn_own, ac_own, io_own, None)) or [0, 0])[1] == "dict"))):
+                    (cfg.get("wrap") in (None, "list") and not md["taxii_sink_dict_parses"])
+                    or (direct.get((fn_own, ac_own, io_own, v)) or ["?"])[0] == "ok")):
                 key = (e, json.dumps({k: x for k, x in cfg.items() if k != "wrap"}, sort_keys=True))
                 triples = eff.get(key)
                 if triples is None:
